@@ -313,7 +313,16 @@ def W(chk, shape):
     return ops.ri(chk.rng, tuple(shape), -2, 2)
 
 
+def rhs_patterns(nb):
+    """Every broadcast pattern of a rhs batch against a 2-dim operator batch (a,b) [or (a,1) against rhs batch (a,3)]."""
+    a, b = nb[0], (nb[1] if nb[1] > 1 else 3)
+    pats = [(a, b), (b,), (), (1, b), (a, 1), (1, 1), (4, a, b)]
+    return ["pat" + str(p).replace(" ", "") for p in dict.fromkeys(pats) if p != tuple(nb)]
+
+
 def rhs_shapes(batch, n, kind):
+    if kind.startswith("pat"):
+        return (*eval(kind[3:]), n, 2)
     if kind == "vec":
         return (n,)
     if kind == "mat":
@@ -406,8 +415,8 @@ def entry_cases(chk, insts_by, only=None):
             entries = list(ENTRY_GENERIC)
             if inst.psd:
                 entries += ENTRY_PSD
-            if mode == "cpat":
-                entries = ["matmul"] + (["solve", "inv_quad", "logdet"] if inst.psd else [])
+            if mode in ("cpat", "rpat1"):
+                entries = ["matmul", "rmatmul", "t_matmul"] + (["solve", "solve_left", "inv_quad", "logdet"] if inst.psd else [])
             for entry in entries:
                 if entry in ("diagonal",) and n != m:
                     continue
@@ -430,10 +439,15 @@ def entry_cases(chk, insts_by, only=None):
                     rkinds = (["vec"] if not inst.nb else []) + ["mat"] + (["nobatch"] if inst.nb and not quick else [])
                 else:
                     rkinds = ["mat"]
+                pat_entry = len(inst.nb) == 2 and entry in ("matmul", "t_matmul", "rmatmul", "solve", "solve_left", "inv_quad")
+                if pat_entry:  # right-hand sides / left factors with every broadcast pattern against the 2-dim operator batch
+                    rkinds = rkinds + rhs_patterns(inst.nb)
                 for (cname, memeff, cholsz), rk in itertools.product(cfgs, rkinds):
+                    if rk.startswith("pat") and quick and cname not in ("default", "memeff"):
+                        continue
                     if quick and mode == "bcast" and (cname != "default" or rk not in ("mat", "vec")):
                         continue
-                    if quick and cname == "memeff" and rk not in ("mat",):
+                    if quick and cname == "memeff" and rk not in ("mat",) and not rk.startswith("pat"):
                         continue
                     sks = ("all", "partial") if (quick or entry not in ("matmul", "solve")) else ("all", "partial", "single")
                     # (leaf subset kind, rhs requires grad, left factor requires grad); None = seed-random
@@ -442,10 +456,16 @@ def entry_cases(chk, insts_by, only=None):
                     if entry == "solve_left":  # ALL requires_grad subsets of {L, R, operator leaves}
                         combos = [(lk, r, l) for lk in ("all", "none", "partial") for r in (True, False) for l in (True, False)
                                   if not (lk == "none" and not r and not l)]
+                    elif rk.startswith("pat"):
+                        combos = [("all", True, None), ("none", True, None)]
                     elif has_rhs and (not quick or (cname == "default" and rk == "mat")):
                         combos += [("none", True, None), ("all", False, None)]  # only the rhs / only the leaves
                     for sk, rreq, lreq in combos:
                         if quick and sk == "partial" and (cname != "default" or rk != "mat") and entry not in ("solve", "inv_quad_logdet", "solve_left"):
+                            continue
+                        if rk.startswith("pat") and entry == "solve_left" and not (rreq or lreq):
+                            continue
+                        if rk.startswith("pat") and entry == "solve_left" and quick and sk == "partial":
                             continue
                         if quick and entry == "solve_left" and cname == "memeff" and sk == "partial":
                             continue
@@ -472,7 +492,7 @@ def one_entry(chk, inst, entry, rk, cname, memeff, cholsz, sk, cell, payload, se
     aux = {}
     rows = n if entry in ("rmatmul", "t_matmul") else m
     if entry == "rmatmul":
-        rshape = (*nb, 2, n) if rk == "mat" else (n,)
+        rshape = (*nb, 2, n) if rk == "mat" else ((*eval(rk[3:]), 2, n) if rk.startswith("pat") else (n,))
     else:
         rshape = rhs_shapes(nb, rows, rk)
     rhs0 = ops.ri(chk.rng, rshape, -2, 2)
@@ -491,7 +511,8 @@ def one_entry(chk, inst, entry, rk, cname, memeff, cholsz, sk, cell, payload, se
     if entry == "add_dense":
         aux["E"] = ops.ri(chk.rng, (*nb, n, m), -2, 2)
     if entry == "solve_left":
-        aux["left"] = ops.ri(chk.rng, (*nb, 2, n), -2, 2)
+        lb = eval(chk.rng.choice(rhs_patterns(nb))[3:]) if rk.startswith("pat") else nb  # the left factor gets a pattern of its own
+        aux["left"] = ops.ri(chk.rng, (*lb, 2, n), -2, 2)
     if entry == "inv_quad_logdet":
         aux["w1"], aux["w2"] = float(chk.rng.randint(1, 3)), float(chk.rng.randint(1, 3))
     exact = inst.exact and entry in ENTRY_GENERIC and entry != "mul_const"
@@ -666,7 +687,8 @@ def gen_instances(chk):
     quick = chk.tier == "quick"
     res = {}
     combos = [((), "full"), ((2,), "full"), ((2,), "bcast")] if quick else [((), "full"), ((2,), "full"), ((2,), "bcast"), ((2, 3), "bcast"), ((1,), "full")]
-    res[((2, 3), "cpat")] = ops.instances(chk.rng, (2, 3), 3, mode="full", only_cpat=True)  # ConstantMul broadcast patterns
+    res[((2, 3), "cpat")] = ops.instances(chk.rng, (2, 3), 3, mode="full", only_cpat=True)  # ConstantMul broadcast patterns + rhs patterns
+    res[((2, 1), "rpat1")] = ops.instances(chk.rng, (2, 1), 3, mode="full", only_cpat=True, rpat_only=True)  # operator batch (a,1) vs rhs batch (a,b)
     for ci, (batch, mode) in enumerate(combos):
         res[(batch, mode)] = ops.instances(chk.rng, batch, 3 if (quick or ci < 3) else chk.rng.choice([3, 4]), mode=mode)
     return res
